@@ -1,5 +1,6 @@
 """C14 — every failure is a typed error that names the offending setting."""
 from ..gens import *
+import json
 from .. import typegen as TG
 
 ID = "C14"
@@ -16,7 +17,14 @@ RULE = ("valid (configuration, target type) pairs from C04's generators with exa
         "fault is nested at depth >= 2. Distinct by (fault kind, depth, container kinds on the way, with/without source).")
 TRUSTED_BASE = ["Lean 4 kernel", "the generator's knowledge of where it injected the fault (the expected path)", "correspondence harness"]
 ASSUMPTIONS = ["message wording is not compared, only the quoted path and the source", "types without inline maps (an inline map captures every key: D24)"]
-normalize_result = TG.normalize_unpack_result
+
+
+def normalize_result(case, res):
+    if case.get("k") == "unpackers":
+        if isinstance(res, dict) and ("panic" in res or "fatal" in res or "harness" in res):
+            return res
+        return {"unmodelled": True}
+    return TG.normalize_unpack_result(case, res)
 
 
 def gen(rng, tier):
@@ -80,6 +88,92 @@ def gen(rng, tier):
         made += 1
         yield c
     yield from gen_api_errors(rng.fork("api"), n // 5)
+    yield from gen_unpackers(rng.fork("unpackers"), n // 5)
+
+
+def gen_unpackers(rng, n):
+    """settings read by hand-written Unpack methods (harness/vworker/unpackers.go: the seven Unpacker interfaces), which fail
+    with plain errors or with errors that already are ucfg.Errors (the method used ucfg on the value it was handed)"""
+    def endpoint():
+        return S(rng.pick(["localhost", "example.org"])) if rng.chance(0.5) else M([("host", S("h")), ("port", U(rng.pick([80, 443, 65535])))])
+    def F(x):
+        return {"f": "%016x" % TG._fbits(x)}
+    for _ in range(n):
+        nout = 1 + rng.below(3)
+        outputs = [M([("endpoint", endpoint()), ("name", S(rng.pick(["Abc", "x"])))]) for _ in range(nout)]
+        node = [("name", S("Node")), ("b", {"b": True}), ("i", U(5)), ("u", U(7)), ("f", F(1.5)),
+                ("c", M([("n", U(2)), ("s", S("x"))])), ("p", M([("n", U(3))]))]
+        node = [e for e in node if rng.chance(0.8)]
+        mk = ["k%d" % i for i in range(1 + rng.below(2))]
+        cfg = {"outputs": A(outputs), "node": M(node), "m": M([(k, endpoint()) for k in mk]), "l": A([U(1 + i) for i in range(1 + rng.below(3))]),
+               "tail": S("t")}
+        copts, uopts = [], []
+        i = rng.below(nout)
+        faults = [
+            (("outputs", str(i), "endpoint"), U(5), None, "plain"),
+            (("outputs", str(i), "endpoint"), M([("host", S("h")), ("port", U(70000))]), None, "nested-ucfg"),
+            (("outputs", str(i), "endpoint"), M([("host", M([("x", U(1))]))]), None, "nested-ucfg"),
+            (("outputs", str(i), "name"), S("bad!"), None, "plain"),
+            (("outputs", str(i), "name"), M([("x", U(1))]), None, "conversion"),
+            (("node", "name"), S("Bad!"), None, "plain"),
+            (("node", "b"), S("notabool"), None, "conversion"),
+            (("node", "i"), {"i": "-1"}, None, "plain"),
+            (("node", "i"), S("x"), None, "conversion"),
+            (("node", "u"), U(101), None, "plain"),
+            (("node", "u"), {"i": "-2"}, None, "conversion"),
+            (("node", "f"), F(-0.5), None, "plain"),
+            (("node", "c"), M([("n", U(0))]), ("node", "c", "n"), "nested-ucfg"),
+            (("node", "c"), M([("n", S("x"))]), ("node", "c", "n"), "nested-ucfg"),
+            (("node", "c"), U(5), None, "conversion"),
+            (("node", "p"), M([("n", U(0))]), ("node", "p", "n"), "nested-ucfg"),
+            (("node", "p"), S("zz"), None, "conversion"),
+            (("m", mk[0]), U(5), None, "plain"),
+            (("m", mk[0]), M([("port", U(70000))]), None, "nested-ucfg"),
+            (("l", "0"), {"i": "-1"}, None, "plain"),
+            (("l", str(len(cfg["l"]["a"]) - 1)), S("x"), None, "conversion"),
+        ]
+        fault = None
+        if rng.chance(0.85):
+            fault = rng.pick(faults)
+        cyclic = fault is None and rng.chance(0.5)
+        def put(tree, path, v):
+            head = path[0]
+            if len(path) == 1:
+                if "m" in tree:
+                    tree["m"] = [(k, x) for k, x in tree["m"] if k != head] + [(head, v)]
+                else:
+                    tree["a"][int(head)] = v
+                return
+            nxt = dict(tree["m"])[head] if "m" in tree else tree["a"][int(head)]
+            put(nxt, path[1:], v)
+        top = M([(k, v) for k, v in cfg.items()])
+        want = None
+        kind = "valid"
+        if fault:
+            path, repl, alt, kind = fault
+            put(top, path, repl)
+            want = [".".join(path)] + ([".".join(alt)] if alt else [])
+        elif cyclic:
+            put(top, ("node", "name"), S("${node.alias}"))
+            put(top, ("node", "alias"), S("${node.name}"))
+            copts = [opt("VarExp"), opt("PathSep", ".")]; uopts = [opt("VarExp"), opt("PathSep", ".")]
+            want = ["node.name", "node.alias"]; kind = "cyclic"
+        c = {"k": "unpackers", "from": top, "copts": copts, "uopts": uopts, "merges": [], "wantPaths": want,
+             "_tag": "unpackers/" + kind, "_nt": True, "_sig": "unpackers|%s|%s" % (kind, ".".join(fault[0][:1] + fault[0][-1:]) if fault else "")}
+        if rng.chance(0.25) and len(cfg["l"]["a"]) >= 2:
+            # the list grown by a later merge
+            L = dict(top["m"])["l"]["a"]
+            put(top, ("l",), A(L[:1]))
+            c["merges"] = [{"b": M([("l", A(L[1:]))]), "opts": [opt("Append")]}]
+            c["_sig"] += "|grown"
+        if rng.chance(0.5):
+            src = rng.pick(["conf.yml", "/etc/app/a.json"])
+            c["copts"] = c["copts"] + [{"o": "MetaData", "v": src}]
+            for m in c["merges"]:
+                m["opts"] = m["opts"] + [{"o": "MetaData", "v": src}]
+            c["source"] = src
+            c["_sig"] += "|src"
+        yield c
 
 
 def list_positions(cfg, path=()):
@@ -113,6 +207,27 @@ def gen_api_errors(rng, n):
 
 def oracle(case, impl, model):
     """every error the API returns is a ucfg.Error"""
+    if case.get("k") == "unpackers" and isinstance(impl, dict):
+        want = case.get("wantPaths")
+        if "create" in impl:
+            return (False, "the configuration could not be created: %s" % json.dumps(impl)[:200])
+        if "ok" in impl:
+            return (False, "a configuration with a faulty setting was unpacked without error") if want else (True, "")
+        e = impl.get("err")
+        if not isinstance(e, dict):
+            return (False, "Unpack crashed: " + json.dumps(impl)[:200])
+        if not want:
+            return (False, "a valid configuration was refused: " + str(e.get("text"))[:200])
+        if e.get("typed") is not True:
+            return (False, "Unpack returned an error that is not a ucfg.Error")
+        if e.get("reason") in (None, "nil") or e.get("class") in (None, "nil"):
+            return (False, "the error has no Reason or no Class")
+        text = e.get("text") or ""
+        if not any(("'" + w + "'") in text for w in want):
+            return (False, "the error does not name the offending setting %s: %s" % (" / ".join(want), text[:300]))
+        if case.get("source") and case["source"] not in text:
+            return (False, "the error does not mention the source %s: %s" % (case["source"], text[:300]))
+        return (True, "")
     if not case.get("apiErrors") or not isinstance(impl, dict):
         return None
     for rd, res in zip(case["reads"], impl.get("reads") or []):
